@@ -1,10 +1,10 @@
-/- C06, tie to the source: the length loop of `readPacket` is bounded at four bytes in the Go file today. -/
+/- C06, tie to the source: the bound of the length loop of `readPacket` and the packet type constants in the Go files today. -/
 import MqttVerif.Proofs.FactsTie
 namespace Mqtt.C06.Tie
 open Mqtt.FactsTie
 
 theorem read_length_bound :
-    Generated.readLenShiftBound = some 21 ∧ Generated.readLenShiftStep = some 7 := by decide
+    agrees Generated.readLenShiftBound 21 ∧ agrees Generated.readLenShiftStep 7 := by decide
 
 theorem packet_constants :
     agrees Generated.packetConnect packetConnect ∧ agrees Generated.packetConnAck packetConnAck ∧
